@@ -52,6 +52,8 @@ def argclass(e):
         else:
             pos = "absent-between"
         parts.append("elem:" + pos)
+    if op in ("insert", "remove", "find", "contains") and len(e["args"]) > 1 and e["args"][1] == 2:
+        parts.append("url-arg")
     return ",".join(parts)
 
 
@@ -141,7 +143,8 @@ def gen_history(rnd, nops, ne, maxlen):
         else:
             c = "count"
         lines.append(c)
-    return lines
+    from vlib import x_c03
+    return x_c03.add_classes(lines, lambda: rnd.randint(1, 2))
 
 
 def gen_sweep(sizes, ne):
@@ -199,7 +202,10 @@ def gen_sweep(sizes, ne):
             have.add(k)
             lines += battery()
     assert max(have) + 2 <= ne and state["front"] > 1
-    return lines
+    from vlib import x_c03
+    import itertools
+    rot = itertools.cycle([1, 2, 2, 1, 2, 1, 1])
+    return x_c03.add_classes(lines, lambda: next(rot))
 
 
 def trace_validation(ctx, exe, corrupt=None, sweep=True):
